@@ -254,7 +254,13 @@ impl<'de> Deserialize<'de> for Phase {
             _ => {
                 let p = u8::from_str(&s)
                     .map_err(|_| serde::de::Error::custom("Phase must be \".\", 0, 1, or 2"))?;
-                Ok(Phase(Self::validate(p)))
+                // a number outside 0..=2 is malformed input, not the "." placeholder
+                match Self::validate(p) {
+                    Some(p) => Ok(Phase(Some(p))),
+                    None => Err(serde::de::Error::custom(
+                        "Phase must be \".\", 0, 1, or 2",
+                    )),
+                }
             }
         }
     }
